@@ -237,7 +237,9 @@ func main() {
 	replay := flag.String("replay", "", "replay file")
 	keep := flag.Bool("keep", false, "keep the scratch directory")
 	repo := flag.String("repo", "/repo", "repository working tree")
+	flag.String("outdir", "", "where evidence/ and replays/ are written (default: the verif directory; a scratch directory when -repo is not /repo, so that runs against modified copies never overwrite the evidence of the real tree)")
 	flag.Parse()
+	outFlag := flag.Lookup("outdir").Value.String()
 	keepScratch = *keep
 	start := time.Now()
 	if exe, err := os.Executable(); err == nil {
@@ -246,6 +248,17 @@ func main() {
 				verifDir = d
 			}
 		}
+	}
+
+	resultDir := verifDir
+	if outFlag != "" {
+		resultDir = outFlag
+	} else if rp, err := filepath.Abs(*repo); err == nil && filepath.Clean(rp) != "/repo" {
+		b := os.Getenv("VERIF_SCRATCH")
+		if b == "" {
+			b = "/var/tmp"
+		}
+		resultDir = filepath.Join(b, "verif-altrepo-results")
 	}
 
 	seed := uint64(1)
@@ -622,7 +635,7 @@ func main() {
 		}
 		nViol++
 		// keep the replay file and verify it twice in fresh processes
-		dst := filepath.Join(verifDir, "replays", filepath.Base(v.ReplayFile))
+		dst := filepath.Join(resultDir, "replays", filepath.Base(v.ReplayFile))
 		os.MkdirAll(filepath.Dir(dst), 0o755)
 		stable := "unverified"
 		if b, err := os.ReadFile(v.ReplayFile); err == nil {
@@ -714,8 +727,8 @@ func main() {
 	}
 	ev := map[string]any{"property_id": *prop, "tier": *tier, "seed": int64(seed), "level": pl.level, "coverage": cov, "assumptions": pl.assume, "wall_s": totalWall, "violations": nViol}
 	eb, _ := json.MarshalIndent(ev, "", " ")
-	os.MkdirAll(filepath.Join(verifDir, "evidence"), 0o755)
-	if err := os.WriteFile(filepath.Join(verifDir, "evidence", *prop+".json"), eb, 0o644); err != nil {
+	os.MkdirAll(filepath.Join(resultDir, "evidence"), 0o755)
+	if err := os.WriteFile(filepath.Join(resultDir, "evidence", *prop+".json"), eb, 0o644); err != nil {
 		die(2, "evidence: %v", err)
 	}
 
